@@ -89,7 +89,7 @@ let bop_of_line (l : string) : M.bop =
   | "build" -> M.BBuild
   | _ -> raise Bad_script
 let run_script (script : string) : string =
-  let lines = List.filter (fun l -> l <> "") (String.split_on_char '\n' script) in
+  let lines = List.filter (fun l -> l <> "" && l <> "P none") (String.split_on_char '\n' script) in
   match (try Some (List.map bop_of_line lines) with Bad_script -> None) with
   | None -> "badscript"
   | Some ops -> string_of_str (M.run_builder ops)
@@ -101,6 +101,7 @@ let dispatch (op : string) (args : string list) : string =
   | "master", [a] -> string_of_str (M.run_master (text a))
   | "tag", [ty; a] -> string_of_str (M.run_tag (codepoints ty) (text a))
   | "bmedia", [a] -> run_script (unhex a)
+  | "assoc", [a] -> string_of_str (M.run_assoc (text a))
   | _ -> "badop"
 
 let () =
